@@ -34,7 +34,18 @@ HAND_PAIRS = [
     ('<div>k</div>', '<div>k</div><span>w <iframe></iframe></span><p>q</p>'),
     ('<div>k</div><span>w <iframe src="/f"></iframe> v</span><p>q</p><p>r</p>', '<div>k</div><p>r</p>'),
     ('<p>one</p><hr><p>two</p>', '<p>one</p><p>new</p><hr><p>two three</p>'),
+    ('<ul><li style="display: inline;">Home</li></ul><p>x</p>', '<ul><li style="display: inline;">Home</li><li style="display: inline;">News</li></ul><section style="display:inline"><p>new block</p></section><p>x</p>'),
+    ('<p>Area 10\u00b2 m and CO\u2082 levels</p>', '<p>Area 102 m and CO2 levels</p>'),
+    ('<ul><li>\ufb01le \uff21\uff22\uff23</li><li>5\u00b5g dose</li></ul>', '<ul><li>file ABC</li><li>5\u03bcg dose</li></ul>'),
+    ('<p>caf\u00e9 stra\u00dfe Data</p>', '<p>cafe\u0301 strasse data</p>'),
 ]
+
+
+# words that differ only by a character a Unicode normalisation / case folding / look-alike mapping would identify: still different text
+LOOKALIKES = [('10\u00b2', '102'), ('CO\u2082', 'CO2'), ('\ufb01le', 'file'), ('\uff21\uff22\uff23', 'ABC'), ('\u00bd', '1\u20442'), ('Acme\u2122', 'AcmeTM'),
+              ('5\u00b5g', '5\u03bcg'), ('\u212b', '\u00c5'), ('caf\u00e9', 'cafe\u0301'), ('\u2126', '\u03a9'), ('stra\u00dfe', 'strasse'), ('\u0130', 'i\u0307'),
+              ('xray', '\u0445ray'), ('co\u00adop', 'coop'), ('data', 'Data'), ('item\u200c', 'item'), ('1,000', '1.000'), ('O', '0'), ('report', 'report.'),
+              ('\u2160\u2161', 'III'), ('\u33a1', 'm2'), ('e\u0301', '\u00e9'), ("it's", 'it\u2019s'), ('a-b', 'a\u2011b'), ('...', '\u2026')]
 
 
 LEADS = ['<script id="gtm">lead();</script>', '<style>.lead { color: red }</style>',
@@ -52,6 +63,20 @@ def documents(rng, n, rich=True):
             lead = rng.choice(LEADS)
             a = lead + a
             b = (lead if rng.random() < 0.8 else rng.choice(LEADS)) + b
+        if rng.random() < 0.08:
+            # the two versions differ in exactly one look-alike word
+            import re as _re
+            x, y = rng.choice(LOOKALIKES)
+            if rng.random() < 0.5:
+                x, y = y, x
+            toks = _re.findall(r'<[^>]+>|[^<]+', a)
+            idxs = [i for i, t in enumerate(toks) if not t.startswith('<') and t.strip() and not (i and _re.match(r'<(script|style|textarea|option|svg|select|title)', toks[i - 1]))]
+            if idxs:
+                i = rng.choice(idxs)
+                ws = toks[i].split(' ')
+                j = rng.randrange(len(ws) + 1)
+                a = ''.join(toks[:i] + [' '.join(ws[:j] + [x] + ws[j:])] + toks[i + 1:])
+                b = ''.join(toks[:i] + [' '.join(ws[:j] + [y] + ws[j:])] + toks[i + 1:])
         k = rng.random()
         if k < 0.7:
             out.append((g.document(a), g.document(b)))
